@@ -51,7 +51,7 @@ def corpus():
                 yield (2 * S, 0, ("insert_one", "b"))                  # young: may stay buffered
                 yield (2 * S, 0, ("replace_last", "b"))
                 yield (gap - 4 * S, 0, _spec(kind, ids[1:]))           # age = gap again, two writes pending
-                yield (gap, 0, ("insert_many", "b", (ids[2], ids[3]), 1))  # several blocks
+                yield (gap, 0, ("insert_many", "b", (ids[2], ids[3]), 1))  # several statements, one commit decision
                 yield (MS, 0, ("insert_one", "b"))
             add(f"long-age-{kind}-{gap}", h_long)
 
@@ -109,7 +109,7 @@ def corpus():
                     yield (4 * S, 0, ("insert_one", "b"))
                 yield (7 * S, 0, ("insert_many", "b", (ids[2], ids[3]), 1))
                 yield _reopen(2 * S, "crash", 0)
-                yield (gap, 0, ("insert_many", "b", (ids[2],), 2))     # several blocks first
+                yield (gap, 0, ("insert_many", "b", (ids[2],), 2))     # several statements, one commit decision
                 yield (11 * S, 0, ("replace_last", "b"))
             add(f"reopen-{kind}-{gap}", h_reopen)
 
@@ -205,6 +205,12 @@ def api_corpus():
         yield (MS, 0, ("replace", "b", 2))
         yield (11 * S, 0, ("insert_many_bad", "b", (), 2))
         yield (11 * S, 0, ("insert_one", "b"))
+        yield (S, 0, ("insert_one", "b"))                              # young: stays buffered
+        # 11.5 s after the flush (10.5 s after the last instant at which nothing was pending) the third upsert of
+        # a list raises at bind time: the two before it (and the young write) are flushed by the
+        # conditional_commit of insert_many's finally clause
+        yield (10_500_000, 0, ("insert_many_badup", "b", (1, 2, 3), 2, 1))
+        yield (3 * S, 0, ("insert_one", "b"))
     add("datastore-level-calls-between-writes", h_bucket_calls)
 
     # a second store alive in the process: its flushes, bursts and bucket calls are not ours
